@@ -1,12 +1,14 @@
 """C36 Storage reads honour the read contract for every offset and length — structural clauses.
 
   SIB-storage-read   the three StorageRead impls of MemoryStorage (contract code, contract state, blobs) have
-                     identical normalised skeletons per method (same calls, same comparisons with the same
-                     regions, same StorageReadError variants): a fix or defect in one is a disagreement.
+                     identical normalised skeletons per method (same domain calls, same comparisons with the same
+                     regions, same StorageReadError variants; slice / Option plumbing is not part of the skeleton):
+                     a fix or defect in one is a disagreement.
   SHAPE-read         read_exact: missing key -> KeyNotFound; end = offset.saturating_add(buf.len());
                      end > len -> OutOfBounds (region {gt}); copies data[offset..end]; returns the total length.
-                     read_zerofill: missing key -> KeyNotFound; split_at_checked(offset) None -> OutOfBounds;
-                     copies min(remaining, buf.len()) bytes and zero-fills the rest on every Ok path.
+                     read_zerofill: missing key -> KeyNotFound; the value cut at offset (split_at_checked(offset) or
+                     get(offset..)) failing -> OutOfBounds; copies min(remaining, buf.len()) bytes and zero-fills
+                     the rest on every Ok path.
   DOM-zero-fill      copy_from_storage_zero_fill: the destination comes from the ownership-checked write of
                      (dst_addr, dst_len); a read happens only when src_offset < src_len and its length is
                      min(src_len - offset, buffer); the tail fill(0) lies on every Ok path; KeyNotFound maps to
@@ -19,7 +21,7 @@ Not decided: byte equality for every offset/length (an order-domain interpretati
 import re
 
 from fvlib.core import (CFG, CallGraph, agg_blocks, assignments, call_blocks, calls, callee_matches, callee_name,
-                        describe, guards, guard_region, short, CMP_REGION, FLIP)
+                        describe, guards, guard_region, short, simplify_desc, CMP_REGION, FLIP)
 from fvlib.summ import ok_sites
 
 TABLES = {"ContractsRawCode": "contracts", "ContractsState": "contract_state", "BlobData": "blobs"}
@@ -31,10 +33,13 @@ def skeleton(f):
     def norm(d):
         d = re.sub(r"arg:self\.memory\.\w+", "arg:self.memory.<MAP>", d)
         return d
-    cs = sorted(callee_name(c).rsplit("::", 1)[-1] + "(" + ",".join(norm(describe(f, a, depth=8)) for a in args) + ")" for i, c, args, *_ in calls(f))
+    # plumbing (as_ref / deref / into / `?`) is not part of the skeleton; arguments are read through lets (depth) and compared as a set
+    cs = sorted(set(callee_name(c).rsplit("::", 1)[-1] + "(" + ",".join(norm(simplify_desc(describe(f, a, depth=24))) for a in args) + ")" for i, c, args, *_ in calls(f)
+                    if callee_name(c).rsplit("::", 1)[-1] not in ("as_ref", "deref", "into", "from", "branch", "from_residual", "borrow", "as_slice",
+                                                                   "split_at_checked", "split_at_mut", "get", "index", "index_mut", "min", "len", "copy_from_slice", "fill")))
     gs = []
     for g in guards(f):
-        a, b, op = norm(g["a_desc"]), norm(g["b_desc"]), g["op"]
+        a, b, op = norm(simplify_desc(describe(f, g["a"], depth=24))), norm(simplify_desc(describe(f, g["b"], depth=24))), g["op"]
         reg = sorted(CMP_REGION[op])
         if a > b:
             a, b = b, a
@@ -104,9 +109,15 @@ def run(F, rep, tier, allfacts):
         where = "%s:%s" % (f["file"], f["line"])
         oks = [b for b in ok_sites(f, cfg)]
         fills = [(i, [describe(f, a, depth=6) for a in args]) for i, c, args, *_ in calls(f) if callee_matches(c, r"slice::<impl \[T\]>::fill$")]
-        sac = [[describe(f, a, depth=8) for a in args] for i, c, args, *_ in calls(f) if callee_matches(c, r"split_at_checked$")]
-        sam = [[describe(f, a, depth=12) for a in args] for i, c, args, *_ in calls(f) if callee_matches(c, r"split_at_mut$")]
-        okz = len(fills) == 1 and fills[0][1][1] == "const:0" and len(sac) == 1 and sac[0][1] == "arg:offset" and len(sam) == 1 and sam[0][0] == "arg:buf" and "min(" in sam[0][1]
+        # the value is cut at `offset` (split_at_checked(offset) or get(offset..), failing with OutOfBounds), min(remaining,
+        # buf.len()) bytes are copied and the rest of buf is filled with 0 — whichever slice idiom spells it
+        sac = [[describe(f, a, depth=12) for a in args] for i, c, args, *_ in calls(f) if callee_matches(c, r"split_at_checked$")]
+        sac += [[describe(f, a, depth=12) for a in args] for i, c, args, *_ in calls(f) if callee_matches(c, r"slice::<impl \[T\]>::get$") and "RangeFrom" in describe(f, args[1], depth=12)]
+        mins = [sorted(describe(f, a, depth=20) for a in args) for i, c, args, *_ in calls(f) if callee_matches(c, r"::min$")]
+        cpy = [i for i, c, args, *_ in calls(f) if callee_matches(c, r"copy_from_slice$")]
+        sam = mins
+        okz = len(fills) == 1 and fills[0][1][1] == "const:0" and len(sac) == 1 and "arg:offset" in sac[0][1] and len(cpy) == 1 and len(mins) == 1 and \
+            any(m == "call:len(arg:buf)" for m in mins[0]) and any(re.search(r"call:len\(.*(split_at_checked|call:get)\(", m) for m in mins[0]) and bool(agg_blocks(f, r"StorageReadError$", "OutOfBounds"))
         # every Ok(Ok(..)) exit passes the fill: exits constructing the inner Ok
         inner_ok = [i for i, j, p, rv, line in assignments(f) if rv[0] == "agg" and rv[1].endswith("result::Result") and rv[2] == "Ok" and rv[3] and
                     "total_len" in describe(f, rv[3][0], depth=4) + str([x for x in f.get("dbg", []) if x[0] == "total_len"])[:0] or
